@@ -90,6 +90,12 @@ class RTr2(Tr2):
                     return f'(List.replicate ({k}).toNat {v})', 'list'      # a negative count gives the empty tuple
         return super().expr(e)
 
+    def truthy(self, e):
+        t, ty = self.expr(e)
+        if ty == 'olist':                       # None and the empty sequence are both falsy
+            return f'(match {t} with | none => false | some l => !l.isEmpty)'
+        return super().truthy(e)
+
 
 class RTr(FnTr):
     """pyfn2lean + calls that read a file or call a sibling closure (monadic bind), optional sequences (`olist`),
@@ -173,23 +179,30 @@ class RTr(FnTr):
         return f'{ind}(match {term} with\n{ind}| .error e => .error e\n{ind}| .ok {tmp} =>\n{body})'
 
     # ------------------------------------------------------------ optional sequences
-    def olist_uses(self, e, env):
+    def olist_uses(self, e, env, truth=False):
         used = []
 
-        def walk(n):
+        def walk(n, truth):
+            # truth: the node's truth value is all that is taken (None is simply false there)
             if isinstance(n, ast.Compare) and len(n.ops) == 1 and isinstance(n.ops[0], (ast.Is, ast.IsNot, ast.Eq, ast.NotEq)) \
                     and (is_none(n.left) or is_none(n.comparators[0])):
                 return
             if isinstance(n, ast.Name) and isinstance(n.ctx, ast.Load) and n.id in env and env[n.id][1] == 'olist':
-                if n.id not in used: used.append(n.id)
+                if not truth and n.id not in used: used.append(n.id)
                 return
-            for c in ast.iter_child_nodes(n): walk(c)
-        walk(e)
+            if truth and isinstance(n, ast.BoolOp):
+                for c in n.values: walk(c, True)
+                return
+            if truth and isinstance(n, ast.UnaryOp) and isinstance(n.op, ast.Not):
+                walk(n.operand, True)
+                return
+            for c in ast.iter_child_nodes(n): walk(c, False)
+        walk(e, truth)
         return used
 
-    def unwrap_olists(self, e, env, ind, k):
+    def unwrap_olists(self, e, env, ind, k, truth=False):
         """using None as a sequence is Python's TypeError"""
-        used = self.olist_uses(e, env)
+        used = self.olist_uses(e, env, truth)
         env2, out, cur = dict(env), [], ind
         for u in used:
             self.fresh += 1
@@ -223,13 +236,13 @@ class RTr(FnTr):
                 inner = ast.If(test=more, body=s.body, orelse=s.orelse)
                 s2 = ast.If(test=vs[0], body=[inner], orelse=s.orelse)
             return self.block([s2] + rest, env, ind)
-        if isinstance(s, ast.If) and self.olist_uses(s.test, env):
+        if isinstance(s, ast.If) and any(isinstance(n, ast.Name) and n.id in env and env[n.id][1] == 'olist' for n in ast.walk(s.test)):
             def k(env2, ind2):
                 c = self.tr(env2).truthy(s.test)
                 a = self.block(list(s.body) + rest, env, ind2 + '  ')
                 b = self.block(list(s.orelse) + rest, env, ind2 + '  ')
                 return f'{ind2}if {c} then\n{a}\n{ind2}else\n{b}'
-            return self.unwrap_olists(s.test, env, ind, k)
+            return self.unwrap_olists(s.test, env, ind, k, truth=True)
         if isinstance(s, ast.While):
             if self.poll is None or s.orelse:
                 raise Untranslatable('loop')
